@@ -89,6 +89,9 @@ def exotic_valuations():
 
 GLOBALS_SRC = "G = 7\nGL = [4, 0]\nx = 100\nxs = [9, 9]\nC = 50\nCL = [7, 7, 7]\nclass _Imp:\n    def __repr__(self):\n        return 'IMPOSSIBLE'\nIMPOSSIBLE = _Imp()\ndef ident(v):\n    return v\ndef add(a, b=0, *rest, k=0):\n    return a + b + sum(rest) + k\n"
 CLOSURE = {"C": 5, "CL": [1]}
+# parameters of the decorated FUNCTION (with these defaults) that no condition takes as a parameter although the conditions use
+# the names: inside a condition G and GL are the module globals (7, [4, 0]), whatever the function was called with
+SHADOWING_ARGS = {"G": 70, "GL": [70, 71]}
 # parameters of the *condition* that the decorated function does not have: the condition's own default applies
 OWN_DEFAULTS = {"kd": 0}
 OWN_DEFAULT_FRAMES = ["({0}) and kd > 5", "kd > 5 or ident({0})", "kd < 1 and ({0}) and kd > 5"]
